@@ -11,6 +11,9 @@ import (
 var _ Header = (*BCD2BytesHeader)(nil)
 
 // 2 bytes of BCD encoded length
+// maxBCD2BytesLength is the largest length that fits into 4 BCD digits (2 bytes)
+const maxBCD2BytesLength = 9999
+
 type BCD2BytesHeader struct {
 	Len int
 }
@@ -28,6 +31,10 @@ func (h *BCD2BytesHeader) Length() int {
 }
 
 func (h *BCD2BytesHeader) WriteTo(w io.Writer) (int, error) {
+	if h.Len < 0 || h.Len > maxBCD2BytesLength {
+		return 0, fmt.Errorf("length %d can not be written as 4 BCD digits", h.Len)
+	}
+
 	strLen := fmt.Sprintf("%04d", h.Len)
 	res, err := encoding.BCD.Encode([]byte(strLen))
 	if err != nil {
